@@ -253,7 +253,9 @@ class Ctx:
             'wall_s': round(time.time() - self.t0, 2),
             'violations': nviol,
         }
-        path = os.path.join(VERIF, 'evidence', f'{self.prop}.json')
+        evdir = 'evidence-mutant' if os.environ.get('VERIF_NO_EVIDENCE') \
+            else 'evidence'
+        path = os.path.join(VERIF, evdir, f'{self.prop}.json')
         os.makedirs(os.path.dirname(path), exist_ok=True)
         tmp = path + '.tmp'
         with open(tmp, 'w') as f:
